@@ -10,6 +10,7 @@ package tally
 
 import (
 	"fmt"
+	"math"
 	"math/rand"
 	"os"
 	"sort"
@@ -292,6 +293,96 @@ func TestVerifDriverC11(t *testing.T) {
 		}
 		if c, ok := root.(interface{ Close() error }); ok {
 			_ = c
+		}
+	}
+	// several bucket specs under one test scope, among them specs whose bounds add up
+	// to the same total (the bucket cache keys storage by a commutative identity, so
+	// these share a cache slot): every histogram must count against ITS OWN bounds
+	{
+		vspecs := []ValueBuckets{{1, 8}, {2, 4}, {3, 6}, {4, 5}, {0, 9}, {1, 2, 6}, {9}, {2, 4}}
+		dspecs := []DurationBuckets{{10 * time.Millisecond, 40 * time.Millisecond}, {20 * time.Millisecond, 30 * time.Millisecond}, {50 * time.Millisecond}, {25 * time.Millisecond, 25 * time.Millisecond}}
+		for round := 0; round < 3; round++ {
+			root := NewTestScope("", nil)
+			order := rng.Perm(len(vspecs))
+			refV := map[string]map[float64]int64{}
+			for _, i := range order {
+				n := fmt.Sprintf("v%d", i)
+				h := root.Histogram(n, vspecs[i])
+				m := map[float64]int64{}
+				for _, b := range vspecs[i] {
+					m[b] = 0
+				}
+				m[math.MaxFloat64] = 0
+				for k := 0; k < 12; k++ {
+					v := float64(rng.Intn(11))
+					h.RecordValue(v)
+					ub := math.MaxFloat64
+					for _, b := range vspecs[i] {
+						if v <= b && b < ub {
+							ub = b
+						}
+					}
+					m[ub]++
+				}
+				refV[n+"+"] = m
+			}
+			refD := map[string]map[time.Duration]int64{}
+			for _, i := range rng.Perm(len(dspecs)) {
+				n := fmt.Sprintf("d%d", i)
+				h := root.Histogram(n, dspecs[i])
+				m := map[time.Duration]int64{}
+				for _, b := range dspecs[i] {
+					m[b] = 0
+				}
+				m[time.Duration(math.MaxInt64)] = 0
+				for k := 0; k < 12; k++ {
+					d := time.Duration(rng.Intn(60)) * time.Millisecond
+					h.RecordDuration(d)
+					ub := time.Duration(math.MaxInt64)
+					for _, b := range dspecs[i] {
+						if d <= b && b < ub {
+							ub = b
+						}
+					}
+					m[ub]++
+				}
+				refD[n+"+"] = m
+			}
+			snap := root.Snapshot().Histograms()
+			for key, want := range refV {
+				e, ok := snap[key]
+				if !ok {
+					fail(-1, "spec family: histogram %q missing from snapshot", key)
+					continue
+				}
+				got := e.Values()
+				same := len(got) == len(want)
+				for b, c := range want {
+					if gc, ok := got[b]; !ok || gc != c {
+						same = false
+					}
+				}
+				if !same {
+					fail(-1, "spec family: histogram %q values %v, reference %v", key, got, want)
+				}
+			}
+			for key, want := range refD {
+				e, ok := snap[key]
+				if !ok {
+					fail(-1, "spec family: histogram %q missing from snapshot", key)
+					continue
+				}
+				got := e.Durations()
+				same := len(got) == len(want)
+				for b, c := range want {
+					if gc, ok := got[b]; !ok || gc != c {
+						same = false
+					}
+				}
+				if !same {
+					fail(-1, "spec family: histogram %q durations %v, reference %v", key, got, want)
+				}
+			}
 		}
 	}
 	if fails == 0 {
